@@ -404,6 +404,37 @@ def island_mesh(rng, n=None):
     return mixedgen.with_hex_island(verts, cells, n=rng.choice([(1, 1, 1), (2, 1, 1)]))
 
 
+def planar_mesh(rng, nx=None, nyb=1, nyt=None, yi=None):
+    """2-D: nyb rows of quadrilaterals on [0,1]x[0,yi] under nyt rows of triangles (alternating diagonals), boundary
+    edges with the side ids 1..4; z = 0"""
+    nx = nx or rng.randint(3, 5)
+    nyt = nyt or rng.randint(2, 4)
+    yi = yi if yi is not None else rng.choice([0.2, 0.3])
+    ys = [yi * k / nyb for k in range(nyb)] + [yi + (1 - yi) * k / nyt for k in range(nyt + 1)]
+    ny = nyb + nyt
+
+    def vid(i, j):
+        return j * (nx + 1) + i
+    verts = [(i / nx, ys[j], 0.0) for j in range(ny + 1) for i in range(nx + 1)]
+    qua, tri, edg = [], [], []
+    for j in range(ny):
+        for i in range(nx):
+            a, b, c, d = vid(i, j), vid(i + 1, j), vid(i + 1, j + 1), vid(i, j + 1)
+            if j < nyb:
+                qua.append((a, b, c, d, 1))
+            elif (i + j) % 2 == 0:
+                tri += [(a, b, c, 1), (a, c, d, 1)]
+            else:
+                tri += [(a, b, d, 1), (b, c, d, 1)]
+    for i in range(nx):
+        edg.append((vid(i, 0), vid(i + 1, 0), 1))
+        edg.append((vid(i + 1, ny), vid(i, ny), 3))
+    for j in range(ny):
+        edg.append((vid(nx, j), vid(nx, j + 1), 2))
+        edg.append((vid(0, j + 1), vid(0, j), 4))
+    return (verts, {'tri': tri, 'qua': qua, 'edg': edg}), yi
+
+
 def touches(C, v, kinds):
     return any(v in c[0] for k in kinds for c in C[k])
 
@@ -511,6 +542,11 @@ def gen_run(rng, tier):
         verts, cells = island_mesh(rng)
         ops.append(run_op(rng.choice(['a', 'aw', 'wa']), rng.choice([0, 1]), rng.uniform(0.2, 0.35), 0.0, 0.0, 1.0, verts, cells))
         ops.append(run_op('a', 0, rng.uniform(0.8, 1.2), 0.0, 0.0, 2.0, *island_mesh(rng, (3, 3, 3))))
+        # 2-D: a row of frozen quadrilaterals under triangles (the real 2-D swap pass and its ref_swap_edge_mixed)
+        (verts, cells), yi = planar_mesh(rng)
+        ops.append(run_op(rng.choice(['aa', 'swsw', 'a']), 0, rng.choice([0.06, 0.1]), rng.choice([0.0, 0.4]), yi, 1.0, verts, cells))
+        (verts, cells), yi = planar_mesh(rng, nx=5, nyt=5)
+        ops.append(run_op(rng.choice(['a', 'cwc', 'cwm']), 0, rng.uniform(0.5, 0.9), 0.0, yi, 2.0, verts, cells))
     ops += ['run a 0 0 0 0 0 0', 'bogus', run_op('a', 0, 0.0, 0.0, 0.0, 1.0, [[0, 0, 0]], {})]
     return ops
 
@@ -550,6 +586,25 @@ def star_conforming(r, touched):
     return bad
 
 
+def star_conforming_2d(r, touched):
+    """2-D: every side of a star quadrilateral that contains a touched vertex is shared by exactly two cells
+    (quadrilaterals, triangles), or by one cell and one boundary edge"""
+    bad = []
+    cells = r['cells']
+    for row in cells.get('qua', []):
+        for x, y in E2N['qua']:
+            s = {row[x], row[y]}
+            if not s & set(touched):
+                continue
+            nq = sum(1 for q in cells.get('qua', []) for a, b in E2N['qua'] if {q[a], q[b]} == s)
+            nt = sum(1 for t in cells.get('tri', []) if s <= set(t[:3]))
+            ne = sum(1 for e in cells.get('edg', []) if s <= set(e[:2]))
+            if not ((nq + nt == 2 and ne == 0) or (nq + nt == 1 and ne == 1)):
+                bad.append('side %s of quadrilateral %s: %d quadrilaterals, %d triangles, %d boundary edges on it' %
+                           (sorted(s), row[:4], nq, nt, ne))
+    return bad
+
+
 def oracle_run(ops, impl):
     """C02/C13 on the records of the real passes: the non-simplex cells and the coordinates of their vertices equal
     the initial ones at EVERY hook event; an accepted operation leaves the star conforming to the triangular faces of
@@ -584,9 +639,9 @@ def oracle_run(ops, impl):
         mixed = [(g, row) for g in MIXED for row in cells.get(g, [])]
         if r['frozen'] != '1':
             out.append((kk, where + ': non-simplex cells or the coordinates of their vertices changed'))
-        if phase == 'begin' and kind == 'split_edge':
+        if phase == 'begin' and kind in ('split_edge', 'swap_tri_edge'):
             if any(is_edge_of(g, row, ints[0], ints[1]) for g, row in mixed):
-                out.append((kk, where + ': ref_split_edge called on an edge of a non-simplex cell'))
+                out.append((kk, where + ': %s called on an edge of a non-simplex cell' % kind))
         if phase == 'begin' and kind == 'collapse_edge':
             if any(ints[1] in row[:SIZES[g][0]] for g, row in mixed):
                 out.append((kk, where + ': ref_collapse_edge removes a vertex of a non-simplex cell'))
@@ -596,7 +651,7 @@ def oracle_run(ops, impl):
             out.append((kk, where + ': smoothing moved a vertex of a non-simplex cell'))
         if phase == 'accept':
             touched = [v for v, ok in zip(ints, r['valid']) if ok == '1' and v >= 0]
-            b = star_conforming(r, touched)
+            b = star_conforming_2d(r, touched) if r.get('twod') == '1' else star_conforming(r, touched)
             if b:
                 out.append((kk, where + ': star not conforming to a non-simplex neighbour: ' + '; '.join(b[:2])))
     return out[:20]
@@ -618,14 +673,24 @@ def sc_adapt_mixed(ctx, d, case):
     rng = random.Random(int(d.get('mseed', '1')))
     n = [int(x) for x in d.get('n', '2,2,1,2').split(',')]
     zi = float(d.get('zi', '0.4'))
-    verts, cells = mixedgen.layered(n[0], n[1], n[2], n[3], COLS[d.get('grid', 'a')], zi=zi, rng=rng,
-                                    jitter=float(d.get('jitter', '0')))
     ext = d.get('fmt', 'meshb')
     mesh = os.path.join(case, 'in.' + ext)
-    pyio.write_mesh(mesh, 3, verts, cells)
-    f = metric_graded(float(d.get('h0', '0.3')), float(d.get('g', '0')), zi, float(d.get('hmax', '10')))
     met = os.path.join(case, 'in-metric.solb')
-    pyio.write_solb(met, 3, [meshgen.solb_metric_row(f(p), 3) for p in verts], [3])
+    f = metric_graded(float(d.get('h0', '0.3')), float(d.get('g', '0')), zi, float(d.get('hmax', '10')))
+    if d.get('grid', 'a') == 'q':
+        # planar: a row of frozen quadrilaterals under triangles; the grading runs along y
+        (verts, cells), zi = planar_mesh(rng, nx=n[0], nyb=n[2], nyt=n[3], yi=zi)
+        pyio.write_meshb(mesh, 2, [p[:2] for p in verts], cells)
+        rows = []
+        for p in verts:
+            m = f((p[0], 0.0, p[1]))
+            rows.append(meshgen.solb_metric_row((m[0], 0.0, 0.0, m[3], 0.0, 1.0), 2))
+        pyio.write_solb(met, 2, rows, [3])
+    else:
+        verts, cells = mixedgen.layered(n[0], n[1], n[2], n[3], COLS[d.get('grid', 'a')], zi=zi, rng=rng,
+                                        jitter=float(d.get('jitter', '0')))
+        pyio.write_mesh(mesh, 3, verts, cells)
+        pyio.write_solb(met, 3, [meshgen.solb_metric_row(f(p), 3) for p in verts], [3])
     np_ = int(d.get('np', '0'))
     out = os.path.join(case, 'out.' + ext)
     rc, tail = cli.run_ref(ctx, np_, ['adapt', mesh, '--metric', met, '-x', out, '-s', d.get('passes', '3')], case,
@@ -649,9 +714,13 @@ def gen_adapt_mixed(rng, tier, np=None):
     for grid in ('a', 'b', 'c'):
         if not any(c[0] == grid for c in take):
             take.append((grid, rng.choice([1, 3])))
+    seen = set()
     for k, (grid, passes) in enumerate(take):
         fmt = 'meshb' if k % 2 == 0 else 'lb8.ugrid'
         t = rng.random()
+        if grid not in seen:   # every grid kind is refined at least once (edges of the frozen cells become "long")
+            t *= 0.8
+            seen.add(grid)
         if t < 0.55:      # much finer than the frozen interface spacing right above the layer
             h0, g, hmax = rng.choice([0.05, 0.06, 0.07]), rng.choice([0.5, 0.4, 0.25]), 1.0
             n = rng.choice(['2,2,1,2', '3,3,1,2', '3,2,1,2'])
@@ -667,6 +736,13 @@ def gen_adapt_mixed(rng, tier, np=None):
         ops.append('adaptmixed grid=%s n=%s zi=%s h0=%.3f g=%.2f hmax=%.1f passes=%d fmt=%s mseed=%d jitter=%s%s' %
                    (grid, n, rng.choice(['0.25', '0.4']), h0, g, hmax, passes, fmt, rng.randint(1, 10 ** 6),
                     rng.choice(['0', '0.3']), tail))
+    # 2-D: frozen quadrilaterals under triangles (refining towards the quads, and coarsening)
+    ops.append('adaptmixed grid=q n=%d,1,1,%d zi=%s h0=%.3f g=%.2f hmax=1.0 passes=%d fmt=meshb mseed=%d%s' %
+               (rng.randint(3, 5), rng.randint(2, 4), rng.choice(['0.2', '0.3']), rng.choice([0.05, 0.08]),
+                rng.choice([0.0, 0.4]), rng.choice([2, 4]), rng.randint(1, 10 ** 6), tail))
+    if not np:
+        ops.append('adaptmixed grid=q n=5,1,1,5 zi=0.2 h0=%.3f g=0 hmax=2.0 passes=%d fmt=meshb mseed=%d' %
+                   (rng.uniform(0.5, 0.9), rng.choice([3, 5]), rng.randint(1, 10 ** 6)))
     return ops
 
 
@@ -685,15 +761,20 @@ def oracle_adapt_mixed(ops, impl):
         except Exception as ex:
             bad.append((i, 'output mesh unreadable by the independent parser: %r' % (ex,)))
             continue
-        f = mixedgen.valid_mixed(mo)
+        planar = d.get('grid') == 'q'
+        f = (mixedgen.valid_mixed_2d if planar else mixedgen.valid_mixed)(mo)
         if f:
             bad.append((i, 'C01 output mesh invalid / non-conforming: ' + '; '.join(f[:3])))
+        if planar:
+            mi = dict(mi, verts=[tuple(p[:2]) for p in mi['verts']])
+            mo = dict(mo, verts=[tuple(p[:2]) for p in mo['verts']])
         f = mixedgen.frozen_same(mi, mo)
         if f:
             bad.append((i, 'C02 non-simplex cells not carried through unchanged: ' + '; '.join(f[:2])))
-        v0, v1 = mixedgen.total_volume(mi), mixedgen.total_volume(mo)
+        v0, v1 = (mixedgen.total_area(mi), mixedgen.total_area(mo)) if planar else \
+            (mixedgen.total_volume(mi), mixedgen.total_volume(mo))
         if abs(v1 - v0) > 1e-9 * max(abs(v0), 1e-300):
-            bad.append((i, 'C02 total volume changed: %.12e -> %.12e' % (v0, v1)))
+            bad.append((i, 'C02 total %s changed: %.12e -> %.12e' % ('area' if planar else 'volume', v0, v1)))
     return bad
 
 
